@@ -122,7 +122,7 @@ def _run_child(mod_name, batch, stage_dir, kind, timeout, workdir, idx):
     sanlog = None
     if kind.startswith("asan"):
         sanlog = os.path.join(workdir, "san%05d" % idx)
-        base = "detect_leaks=0:allocator_may_return_null=1:handle_segv=1:log_path=" + sanlog
+        base = "detect_leaks=0:allocator_may_return_null=1:handle_segv=1:quarantine_size_mb=1:thread_local_quarantine_size_kb=16:malloc_context_size=0:suppress_equal_pcs=0:log_path=" + sanlog
         if kind == "asan-halt":
             base += ":halt_on_error=1:abort_on_error=1"
         else:
